@@ -69,6 +69,7 @@ type frame struct {
 	callSeqN map[string]int
 	kcell    ssa.Value
 	pubPoints map[ssa.Instruction][]*ssa.Alloc
+	eventVal  *sval
 	marked    map[string]bool
 	pubN      int
 	dynCalls int
@@ -656,7 +657,10 @@ func (fr *frame) encodeInstr(in ssa.Instruction, st *State, g string) {
 		vc.note("go statement: the spawned goroutine is not modelled")
 		fr.ghostEvent("go", x.Common(), st, g)
 	case *ssa.Send:
+		// `sent` in an at-event send clause: the value being sent
+		fr.rootFr.eventVal = &sval{t: fr.val(x.X), typ: x.X.Type()}
 		fr.chanEvent("send", x.Chan, st, g, x.Pos())
+		fr.rootFr.eventVal = nil
 	case *ssa.Select:
 		fr.selectInstr(x, st, g)
 	case *ssa.Range:
@@ -953,12 +957,28 @@ func (fr *frame) unop(x *ssa.UnOp, st *State, g string) {
 		fr.assumeTypeFacts(g, st, x.Type(), fr.vals[x])
 	case token.ARROW:
 		fr.chanEvent("recv", x.X, st, g, x.Pos())
+		var recvd string
 		if x.CommaOk {
 			fr.havocVal(x, "recv")
 			tup := fr.tuples[x]
 			fr.ghostRecvOk(x.X, tup[1], st, g)
+			recvd = tup[0]
 		} else {
 			fr.havocVal(x, "recv")
+			recvd = fr.vals[x]
+		}
+		// `received(chan)`: the value of the function's last receive on that channel
+		if root := fr.rootFr; root != nil && recvd != "" {
+			if root.bindVals == nil {
+				root.bindVals = map[string]sval{}
+			}
+			et := x.X.Type().Underlying().(*types.Chan).Elem()
+			prev, had := root.bindVals["recv$"+chanFieldName(x.X)]
+			v := recvd
+			if had && g != "true" {
+				v = "(ite " + g + " " + recvd + " " + prev.t + ")"
+			}
+			root.bindVals["recv$"+chanFieldName(x.X)] = sval{t: v, typ: et}
 		}
 	default:
 		vc.unsupported = append(vc.unsupported, "unop "+x.Op.String())
